@@ -329,6 +329,8 @@ VIEWS = [
     ('keys:Key', 'as_hex', {}), ('keys:Key', 'as_bytes', {}), ('keys:Key', 'as_dict', {}), ('keys:Key', 'as_json', {}),
     ('keys:HDKey', '__repr__', {}), ('keys:HDKey', 'as_dict', {}), ('keys:HDKey', 'as_json', {}), ('keys:HDKey', 'wif', {}),
     ('keys:HDKey', 'wif', {'is_private': False}), ('keys:HDKey', 'wif_public', {}),
+    ('keys:HDKey', 'wif', {'is_private': False, 'prefix': b'\x04\x88\xb2\x1e'}), ('keys:HDKey', 'wif_public', {'prefix': b'\x04\x88\xb2\x1e'}),
+    ('keys:HDKey', 'wif', {'prefix': '0488B21E'}),
     ('keys:Address', '__repr__', {}), ('keys:Address', 'as_dict', {}), ('keys:Address', 'as_json', {}),
     ('keys:Signature', '__repr__', {}), ('keys:Signature', '__str__', {}), ('keys:Signature', 'as_der_encoded', {}), ('keys:Signature', 'hex', {}),
     ('transactions:Input', '__repr__', {}), ('transactions:Input', 'as_dict', {}), ('transactions:Output', '__repr__', {}), ('transactions:Output', 'as_dict', {}),
@@ -868,3 +870,68 @@ def _mut_reattach(tree):
                     f.body = f.body[:1] + new + f.body[1:]
                     return True
     return False
+
+
+_PRIVATE_NAMES = {'wif', 'key_private', 'private', 'private_byte', 'private_hex', 'secret', '_wif', 'k'}
+
+
+@PROP.obligation('C16.wallet-info-prints', canaries=[
+    mut.replace_expr('wallets', 'Wallet.info', 'cs.wif(is_private=False)', "(cs.main_key.wif if cs.scheme == 'single' else cs.wif(is_private=False))", 'the cosigner table prints the stored key of single-type cosigners'),
+    mut.replace_expr('wallets', 'Wallet.info', 'cs.wif(is_private=False)', 'cs.wif(is_private=True)', 'the cosigner table prints private master keys'),
+])
+def wallet_info_prints(ctx):
+    """Wallet.info() is the printed form of a wallet. Every value it prints is inspected syntactically (the method is too large for the
+    evaluator): no print argument reads an attribute that the taint analysis marks private on WalletKey / HDKey / Key objects (wif,
+    key_private, private_byte, private_hex, secret ... - WalletKey.wif is the STORED key, an extended private key for keys the wallet
+    owns) and every .wif(...) call in a print argument says is_private=False. Keys are shown through wif(is_private=False) /
+    wif_public() / address only."""
+    T = compute_taint(ctx)
+    tainted = set(_PRIVATE_NAMES)
+    for cls in ('wallets:WalletKey', 'keys:HDKey', 'keys:Key'):
+        tainted |= set(T.attrs.get(cls, ())) | set(T.props.get(cls, ()))
+    tainted -= {'is_private'}
+    q = 'wallets:Wallet.info'
+    fn = ctx.repo.func(q)
+    locals_ = {}
+    for a in ast.walk(fn):
+        if isinstance(a, ast.Assign) and len(a.targets) == 1 and isinstance(a.targets[0], ast.Name):
+            locals_.setdefault(a.targets[0].id, []).append(a.value)
+    n = 0
+
+    def private_reads(e, depth=0):
+        out = []
+        for x in ast.walk(e):
+            if isinstance(x, ast.Attribute) and isinstance(x.ctx, ast.Load) and x.attr in tainted:
+                par_call = any(isinstance(c, ast.Call) and c.func is x for c in ast.walk(e))
+                if not par_call:
+                    out.append('reads `%s`' % norm(x))
+            if isinstance(x, ast.Call) and isinstance(x.func, ast.Attribute) and x.func.attr in ('wif', 'wif_key'):
+                ip = next((k.value for k in x.keywords if k.arg == 'is_private'), x.args[0] if x.args else None)
+                if not (isinstance(ip, ast.Constant) and ip.value is False):
+                    out.append('calls `%s` without is_private=False' % norm(x)[:50])
+            if isinstance(x, ast.Call) and isinstance(x.func, ast.Attribute) and x.func.attr in ('wif_private', 'as_hex', 'as_bytes') and \
+                    (x.func.attr == 'wif_private' or any(k.arg == 'private' and not (isinstance(k.value, ast.Constant) and k.value.value is False) for k in x.keywords)):
+                out.append('calls `%s`' % norm(x)[:50])
+            if isinstance(x, ast.Name) and x.id in locals_ and depth < 2:
+                for v in locals_[x.id]:
+                    out += private_reads(v, depth + 1)
+        return out
+    for c in ast.walk(fn):
+        if isinstance(c, ast.Call) and norm(c.func) == 'print':
+            n += 1
+            for a in c.args:
+                for why in private_reads(a):
+                    ctx.violate(q, 'Wallet.info() prints a value that %s' % why, c,
+                                'for a multisig wallet with a private cosigner key of type single, info() prints the extended PRIVATE key (Zprv...) in the table of "public master keys"')
+    ctx.saw('%d print calls of Wallet.info inspected; private attribute names: %s' % (n, sorted(tainted)))
+    ctx.floor(n, 20, 'print calls')
+
+
+@PROP.obligation('C16.wallet-cache-keys')
+def wallet_cache_keys(ctx):
+    """Wallet.public_master(as_private=False) and its siblings decide between a private and a public object by an argument. Every container a
+    method of Wallet / WalletKey both looks up and stores into is looked up with a key that carries every parameter the cached value
+    depends on - a memo of public_master keyed without `as_private` hands the unstripped private WalletKey to the caller who asked for
+    the public one (none exists on the reference tree; the fixture self-test keeps the detector honest)."""
+    from .common_cache import cache_keys as run
+    run(ctx, [('wallets', lambda q: q.startswith('Wallet.') or q.startswith('WalletKey.') or q.startswith('WalletTransaction.'))], 'wallet methods')
